@@ -387,6 +387,7 @@ pub fn build_cfb_described(streams: &[(&str, &[u8])], l: &CfbLayout) -> (Vec<u8>
     let n_entries = p.n_dir_entries;
     let mut dirbytes = vec![0u8; n_entries * 128];
     let mut dir_desc: Vec<DirEnt> = Vec::with_capacity(n_entries);
+    let junk_hi = !l.v4 && l.fill_seed % 2 == 1;
     let write_entry = |buf: &mut [u8], name: &str, typ: u8, l: u32, r: u32, c: u32, start: u32, len: u64| {
         let u: Vec<u16> = name.encode_utf16().collect();
         assert!(u.len() <= 31, "directory entry name too long");
@@ -401,6 +402,11 @@ pub fn build_cfb_described(streams: &[(&str, &[u8])], l: &CfbLayout) -> (Vec<u8>
         put_u32(buf, 76, c);
         put_u32(buf, 116, start);
         put_u64(buf, 120, len);
+        // [MS-CFB] 2.6.3: in a version 3 file the stream size is a 32-bit value and readers ignore the
+        // most significant 32 bits, which some writers leave uninitialised
+        if junk_hi && typ != 0 {
+            put_u32(buf, 124, 0x0BAD_F00D);
+        }
     };
     // root
     let ms_start = at.get(&Unit::Mini(0)).copied().unwrap_or(ENDOFCHAIN);
